@@ -89,6 +89,7 @@ func C14(c *core.Ctx) {
 	// "the payload unchanged at the end": the payload of a re-injected packet is the packet the data plane handed up,
 	// which is exactly the value octets of the BUFFER_PACKET attribute — without the netlink padding (C13 R7)
 	renameRule(c, "R7", "R3", func() { c13PacketExtent(c) })
+	qerScanTotal(c, "R3")
 }
 
 // c14Message builds the abstract gtpv1.Message: Flags constant, everything else symbolic.
@@ -422,4 +423,72 @@ func linkPassThrough(c *core.Ctx, rule string) {
 		c.Check(rule, "link-always-writes", ci.Pos(), all, "every call of Gtp5gLink.WriteTo reaches the socket write")
 	})
 	c.Check(rule, "link-write-once", fn.Pos(), n == 1, fmt.Sprintf("%d socket writes in Gtp5gLink.WriteTo (want 1)", n))
+}
+
+// qerScanTotal: "when a QoS flow applies" — applyAction picks the first QER of the PDR that carries a QFI.  The scan
+// over the PDR's QER ids leaves its loop only when the list is exhausted or a QER with QFI != 0 was found: a QER that
+// cannot be read (or carries no QFI) is skipped, not the end of the search — otherwise the flow's packets go out
+// without their PDU Session Container although a later QER of the list names the flow.
+func qerScanTotal(c *core.Ctx, rule string) {
+	fn := fnOf(c, rule, pkgFwd, "Gtp5g", "applyAction")
+	if fn == nil {
+		return
+	}
+	n := 0
+	core.Instrs(fn, func(in ssa.Instruction) {
+		cl, ok := in.(*ssa.Call)
+		if !ok || core.Callee(cl) == nil || core.Callee(cl).Name() != "GetQEROID" {
+			return
+		}
+		if !inAnyLoop(cl) {
+			return
+		}
+		n++
+		hdr := loopHeaderOf(cl)
+		bad := ""
+		var badPos token.Pos
+		for _, b := range fn.Blocks {
+			if !inNaturalLoop(b, hdr) || b == hdr {
+				continue
+			}
+			for _, s := range b.Succs {
+				if inNaturalLoop(s, hdr) {
+					continue
+				}
+				found := false
+				facts := append(core.FactsAt(b), core.FactsAt(s)...)
+				if ifi, ok := b.Instrs[len(b.Instrs)-1].(*ssa.If); ok && len(b.Succs) == 2 && b.Succs[0] != b.Succs[1] {
+					facts = append(facts, core.ExpandFact(ifi.Cond, b.Succs[0] == s)...)
+				}
+				for _, f := range facts {
+					cmp, ok := f.V.(*ssa.BinOp)
+					if !ok {
+						continue
+					}
+					for _, side := range [][2]ssa.Value{{cmp.X, cmp.Y}, {cmp.Y, cmp.X}} {
+						_, path := core.FieldPath(side[0])
+						k, isK := core.ConstInt(side[1])
+						if len(path) > 0 && path[len(path)-1] == "QFI" && isK && k == 0 {
+							if (cmp.Op == token.NEQ && f.True) || (cmp.Op == token.EQL && !f.True) || (cmp.Op == token.GTR && f.True) {
+								found = true
+							}
+						}
+					}
+				}
+				if !found && bad == "" {
+					bad = "the scan of the PDR's QERs is left on a path where no QER with a QFI was found"
+					badPos = b.Instrs[len(b.Instrs)-1].Pos()
+					if !badPos.IsValid() {
+						badPos = cl.Pos()
+					}
+				}
+			}
+		}
+		pos := cl.Pos()
+		if bad != "" {
+			pos = badPos
+		}
+		c.Check(rule, fmt.Sprintf("qer-scan-total#%d", n), pos, bad == "", "the search for the PDR's QoS flow ends only when the QER list is exhausted or a QER carrying a QFI is found"+map[bool]string{true: "", false: " — " + bad}[bad == ""])
+	})
+	c.Floor(rule, n, 1, "QER look-ups inside the scan loop of applyAction")
 }
